@@ -118,8 +118,24 @@ package j5convert
 //@   modifies nothing
 //@   ensures result1 == nil ==> result0 != nil && result0.File != "" && contains(result0.File, "/")
 
+// The summary of an enum used to compile in / not_in rules holds, for every option, the number the
+// compiled enum gives it (visitEnumNode: an explicit zero value first, then declaration order from 1),
+// under the key prefix + name. (Option names of a validated enum are distinct: ASSUMED.)
+//@ spec func enumNum(node *sourcewalk.EnumNode, i int) int = explicitZero(node) ? i : i + 1
 //@ func enumTypeRef
-//@   ensures result != nil
+//@   requires node != nil && node.Schema != nil && (forall i int {node.Schema.Options[i]} :: 0 <= i && i < len(node.Schema.Options) ==> node.Schema.Options[i] != nil)
+//@   requires len(node.Schema.Options) < 2147483647
+//@   free requires forall i int, j int {node.Schema.Options[i], node.Schema.Options[j]} :: 0 <= i && i < j && j < len(node.Schema.Options) ==> node.Schema.Options[i].Name != node.Schema.Options[j].Name
+//@   ensures result != nil && result.EnumRef != nil && result.EnumRef.Prefix == node.Schema.Prefix
+//@   ensures numbers: forall i int {node.Schema.Options[i]} :: 0 <= i && i < len(node.Schema.Options) ==>
+//@   |   has(result.EnumRef.ValMap, node.Schema.Prefix + node.Schema.Options[i].Name) && result.EnumRef.ValMap[node.Schema.Prefix + node.Schema.Options[i].Name] == enumNum(node, i)
+//@   loop 0 invariant len(options) == len(node.Schema.Options) - (explicitZero(node) ? 1 : 0) && fresh(valMap)
+//@   loop 0 invariant explicitZero(node) ==> has(valMap, node.Schema.Prefix + node.Schema.Options[0].Name) && valMap[node.Schema.Prefix + node.Schema.Options[0].Name] == 0
+//@   loop 0 invariant forall i int {options[i]} :: 0 <= i && i < len(options) ==> options[i] == node.Schema.Options[i + (explicitZero(node) ? 1 : 0)]
+//@   loop 0 invariant forall i int, j int {options[i], options[j]} :: 0 <= i && i < j && j < len(options) ==> options[i].Name != options[j].Name
+//@   loop 0 invariant explicitZero(node) ==> (forall j int {options[j]} :: 0 <= j && j < len(options) ==> options[j].Name != node.Schema.Options[0].Name)
+//@   loop 0 invariant keys: forall i int, j int {options[i], options[j]} :: 0 <= i && i < j && j < len(options) ==> node.Schema.Prefix + options[i].Name != node.Schema.Prefix + options[j].Name
+//@   loop 0 invariant forall i int {options[i]} :: 0 <= i && i < $iter ==> has(valMap, node.Schema.Prefix + options[i].Name) && valMap[node.Schema.Prefix + options[i].Name] == i + 1
 //@ func oneofTypeRef
 //@   ensures result != nil
 //@ func objectTypeRef
